@@ -34,6 +34,13 @@ pub struct Res {
     /// value this resource writes to the shared BOOL `flag` in every cycle
     #[serde(default)]
     pub flag_val: bool,
+    /// FaultPolicy::Restart: the fault at body `fault_at` (>= 1) warm-restarts the resource,
+    /// which re-initialises its private counter, so the fault recurs every `fault_at` bodies
+    #[serde(default)]
+    pub fault_restart: bool,
+    /// watchdog enabled with action Restart and this timeout (0 = every cycle overruns)
+    #[serde(default)]
+    pub watchdog_restart_ns: Option<i64>,
 }
 
 #[derive(Clone, Debug, Serialize, Deserialize, PartialEq)]
@@ -57,6 +64,8 @@ pub enum Op {
     Sample,
     /// send a MeshSnapshot command (exercises the non-pause/resume command path)
     Snapshot(u8),
+    /// raise the external restart signal of resource `r` (`with_restart_signal`)
+    Restart { r: u8, cold: bool },
     /// pause (cmd 0) / resume (1) / stop (2) of resource `r`, with the very next action of the
     /// controller being an advance of that resource's manual clock (all manual clocks when
     /// `all`) by `ns` - a step that stays short of a sleeping resource's deadline
@@ -98,8 +107,16 @@ impl Script {
     pub fn manual(&self) -> bool {
         self.clock != 0
     }
+    /// the resource whose fault halts it (FaultPolicy::Halt, the default)
     pub fn fault_res(&self) -> Option<usize> {
-        self.resources.iter().position(|r| r.fault_at.is_some())
+        self.resources.iter().position(|r| r.fault_at.is_some() && !r.fault_restart)
+    }
+    /// resource `i` may be restarted while it runs (its private variables start over)
+    pub fn restartable(&self, i: usize) -> bool {
+        let r = &self.resources[i];
+        (r.fault_restart && r.fault_at.is_some())
+            || r.watchdog_restart_ns.is_some()
+            || self.ops.iter().any(|op| matches!(op, Op::Restart { r, .. } if *r as usize == i))
     }
     pub fn any_gated(&self) -> bool {
         self.resources.iter().any(|r| r.gated)
@@ -138,6 +155,10 @@ pub fn normalise(s: &Script) -> Option<Script> {
         }
         r.pair_mask &= (1u8 << s.pairs.len()) - 1;
         r.filler = r.filler.min(400);
+        if r.fault_restart {
+            r.fault_at = r.fault_at.map(|k| k.max(1));
+        }
+        r.watchdog_restart_ns = r.watchdog_restart_ns.map(|t| t.clamp(0, 1_000_000_000));
         r.store_spin = r.store_spin.min(if r.retain_interval_ns.is_some() { 2000 } else { 200_000 });
     }
     // at most one faulting resource
@@ -152,7 +173,7 @@ pub fn normalise(s: &Script) -> Option<Script> {
     }
     s.ops.retain(|op| match op {
         Op::Pause(r) | Op::Resume(r) | Op::AwaitPaused(r) | Op::Snapshot(r) => *r < n,
-        Op::Stop { r, .. } | Op::AwaitCycles { r, .. } | Op::Chased { r, .. } => *r < n,
+        Op::Stop { r, .. } | Op::AwaitCycles { r, .. } | Op::Chased { r, .. } | Op::Restart { r, .. } => *r < n,
         Op::Advance { r, .. } => r.map(|r| r < n).unwrap_or(true),
         _ => true,
     });
@@ -246,6 +267,16 @@ pub fn script_from_tape(tape: &Tape, reps: u16) -> Script {
             }
             _ => (r.flag(), r.flag()),
         };
+        let fault_restart = fault_at.is_some() && r.chance(1, 3);
+        let fault_at = if fault_restart { fault_at.map(|k: u32| k.max(1)) } else { fault_at };
+        // (not on the resource whose fault is awaited: its private counter would start over after
+        // every cycle and never reach the faulting value)
+        let watchdog_restart_ns = if !r.chance(7, 8) && (fault_at.is_none() || fault_restart) {
+            Some([0i64, 20_000][r.pick(2)])
+        } else {
+            let _ = r.word();
+            None
+        };
         resources.push(Res {
             weights,
             pair_mask,
@@ -260,6 +291,8 @@ pub fn script_from_tape(tape: &Tape, reps: u16) -> Script {
             order,
             producer,
             flag_val,
+            fault_restart,
+            watchdog_restart_ns,
         });
     }
     let any_gated = resources.iter().any(|x| x.gated);
@@ -308,6 +341,8 @@ pub fn script_from_tape(tape: &Tape, reps: u16) -> Script {
     let w_pair = if manual { 4 } else { 0 };
     let gate_pos = if gate_open_at == 1 { r.pick(n_ops) } else { usize::MAX };
     let fault_pos = if fault_res.is_some() && !r.chance(1, 4) { r.pick(n_ops) } else { usize::MAX };
+    // external restart signals: none / some
+    let w_restart = [0u32, 3, 3][r.weighted(&[2, 2, 1])];
     for idx in 0..n_ops {
         if idx == gate_pos {
             ops.push(Op::OpenGate);
@@ -316,7 +351,7 @@ pub fn script_from_tape(tape: &Tape, reps: u16) -> Script {
             ops.push(Op::AwaitFault);
         }
         let res = r.pick(n_res) as u8;
-        match r.weighted(&[4, w_pause, w_pause, w_seq, 1, w_adv, 3, 3, 2, 1, w_pair]) {
+        match r.weighted(&[4, w_pause, w_pause, w_seq, 1, w_adv, 3, 3, 2, 1, w_pair, w_restart]) {
             0 => perturb(&mut r, &mut ops),
             1 => ops.push(Op::Pause(res)),
             2 => ops.push(Op::Resume(res)),
@@ -366,6 +401,13 @@ pub fn script_from_tape(tape: &Tape, reps: u16) -> Script {
             7 => ops.push(Op::AwaitCycles { r: res, n: 1 + r.pick(4) as u8 }),
             8 => ops.push(Op::Snapshot(res)),
             9 => ops.push(Op::Yield(1 + r.pick(30) as u16)),
+            11 => {
+                ops.push(Op::Restart { r: res, cold: r.chance(1, 3) });
+                if r.flag() {
+                    // give the restarted resource the chance to run on before anything else
+                    ops.push(Op::AwaitCycles { r: res, n: 1 + r.pick(2) as u8 });
+                }
+            }
             _ => {
                 // the wake-up of pause()/resume()/stop() chased by a clock step that stays
                 // short of the sleeper's deadline
@@ -402,8 +444,9 @@ pub fn script_from_tape(tape: &Tape, reps: u16) -> Script {
 
 /// Private DINT globals bound to %QD8.. : observed-at-start, left-at-end (order of
 /// NON_MONOTONE each) and the handshake invariant counter.
-pub const OBS: [&str; 13] = [
+pub const OBS: [&str; 15] = [
     "ow", "ows", "oflag", "oreq", "osent", "ohandled", "ew", "ews", "eflag", "ereq", "esent", "ehandled", "hbad",
+    "otok", "rout",
 ];
 
 /// ST source run by resource `i`. Every resource declares the same configuration globals;
@@ -428,7 +471,9 @@ pub fn source_for(s: &Script, i: usize) -> String {
     for (k, name) in OBS.iter().enumerate() {
         g.push_str(&format!("    {name} AT %QD{} : DINT := 0;\n", 8 + 4 * k));
     }
-    g.push_str("END_VAR\n");
+    // the I/O driver hands every cycle a fresh token; a body that ran echoes it in `otok`
+    // (the private counter n starts over when the resource is restarted, the token does not)
+    g.push_str("    tok AT %ID0 : DINT := 0;\nEND_VAR\n");
     g.push_str("VAR_GLOBAL\n    n AT %QD0 : DINT := 0;\n    bad AT %QD4 : DINT := 0;\n    zero : DINT := 0;\n    z : DINT := 0;\nEND_VAR\n");
     if res.task_us == 0 {
         g.push_str("PROGRAM P1 : Main;\n");
@@ -449,7 +494,7 @@ pub fn source_for(s: &Script, i: usize) -> String {
     for name in OBS {
         g.push_str(&format!("    {name} : DINT;\n"));
     }
-    g.push_str("    r : DINT;\n    n : DINT;\n    bad : DINT;\n    zero : DINT;\n    z : DINT;\nEND_VAR\nVAR\n    i : DINT;\n    tmp : DINT;\nEND_VAR\n");
+    g.push_str("    tok : DINT;\n    r : DINT;\n    n : DINT;\n    bad : DINT;\n    zero : DINT;\n    z : DINT;\nEND_VAR\nVAR\n    i : DINT;\n    tmp : DINT;\nEND_VAR\n");
     if let Some(k) = res.fault_at {
         g.push_str(&format!("IF n = DINT#{k} THEN z := DINT#1 / zero; END_IF;\n"));
     }
@@ -524,6 +569,6 @@ pub fn source_for(s: &Script, i: usize) -> String {
         g.push_str("IF req THEN req := FALSE; handled := handled + DINT#1; END_IF;\n");
     }
     g.push_str("ew := w;\news := ws;\nIF flag THEN eflag := DINT#1; ELSE eflag := DINT#0; END_IF;\nIF req THEN ereq := DINT#1; ELSE ereq := DINT#0; END_IF;\nesent := sent;\nehandled := handled;\n");
-    g.push_str("r := r + DINT#1;\nn := n + DINT#1;\nEND_PROGRAM\n");
+    g.push_str("r := r + DINT#1;\nn := n + DINT#1;\nrout := r;\notok := tok;\nEND_PROGRAM\n");
     g
 }
